@@ -327,10 +327,13 @@ CHECK_DEADLOCK FALSE
 @check("C10")
 def c10(run):
     fam = "c10len2" if run.tier == "quick" else "c10len3"
-    st = run.tlc("MC_Text", text_cfg(fam), name="MC_Text_" + fam, timeout=3000, workers=1)
+    st, st2 = run.tlc_many([dict(module="MC_Text", cfg=text_cfg(fam), name="MC_Text_" + fam, timeout=3000, workers=1),
+                            dict(module="MC_Link", cfg=link_cfg("c10tree"), name="MC_Link_c10tree", timeout=900, workers=1)])
     path, n = run.records(st)
     run.replay("render", path, name="render-" + fam)
     run.add_samples(path, 2)
+    path2, n2 = run.records(st2)
+    run.replay("tree", path2, name="tree-c10")     # literal as insert argument, component argument, in a slot body
     return vp.finish(run, "model_checking",
                      "every literal up to the length bound over the 14-character alphabet < > & ; # \" ' a 3 4 9 x SP e-acute "
                      "(plus literals spelling existing entities) x both quote styles x 14 usage contexts (printed, "
